@@ -5,6 +5,7 @@ package main
 // (what decoding the output must return).
 
 import (
+	"encoding/json"
 	"bytes"
 	"fmt"
 	"strings"
@@ -20,7 +21,7 @@ func scalarText(v interface{}) (string, bool) {
 		return "", true
 	case string:
 		return x, true
-	case float64, bool:
+	case float64, bool, int, int64, int32, uint64, float32, json.Number:
 		return fmt.Sprintf("%v", x), true
 	}
 	return "", false
@@ -342,6 +343,10 @@ func (r *Rng) c03Value(depth int, inList bool) interface{} {
 		case 1:
 			if r.P(30) {
 				return r.oddFloat()
+			}
+			if r.P(20) {
+				// the other numeric types a Map may hold
+				return []interface{}{int(r.Intn(1000)) - 500, int64(1) << uint(r.Intn(62)), json.Number(r.Pick([]string{"1", "2.50", "-0", "1e3", "9007199254740993"})), int(0), int64(-9223372036854775808)}[r.Intn(5)]
 			}
 			return float64(r.Intn(100)) / 4
 		case 2:
